@@ -14,8 +14,10 @@ def gen_item(rng, depth):
     r = rng.random()
     if r < 0.12:
         return ['null']
-    if r < 0.42:
+    if r < 0.40:
         return ['int', rng.choice(INTS + [rng.getrandbits(rng.choice([8, 62, 63, 64, 65, 200, 256])) * rng.choice([1, -1])])]
+    if r < 0.42:
+        return ['int', rng.choice([2 ** 256, -2 ** 256 - 1, 2 ** 300])]   # outside the 257-bit range: serialising must fail cleanly
     if r < 0.52:
         return ['cell', _rbits(rng, rng.choice([0, 8, 33, 1023])), rng.choice([0, 0, 1, 2])]
     if r < 0.64:
@@ -26,7 +28,7 @@ def gen_item(rng, depth):
     if r < 0.80:
         return ['cont', gen_cont(rng, 2)]
     if depth > 0:
-        n = rng.choice([0, 1, 2, 3, 3, 4, 7])
+        n = rng.choice([0, 1, 2, 3, 3, 4, 7] + ([60, 255] if depth == 3 and rng.random() < 0.05 else []))
         return ['tuple', [gen_item(rng, depth - 1) for _ in range(n)]]
     return ['int', rng.choice(INTS)]
 
@@ -163,6 +165,33 @@ def deep_snapshot(vals):
     return out
 
 
+def is_bad(v):
+    return isinstance(v, int) and not isinstance(v, bool) and not -(1 << 256) <= v < (1 << 256)
+
+
+def has_bad(model_vals):
+    for v in model_vals:
+        if is_bad(v):
+            return True
+        if isinstance(v, tuple) and v[0] == 'tuple' and has_bad(v[1]):
+            return True
+    return False
+
+
+def strip_bad(lib_vals, model_vals):
+    """The caller removes the unsupported values from its own containers (in place)."""
+    i = 0
+    while i < len(model_vals):
+        m = model_vals[i]
+        if is_bad(m):
+            del model_vals[i]
+            del lib_vals[i]
+            continue
+        if isinstance(m, tuple) and m[0] == 'tuple':
+            strip_bad(lib_vals[i].list, m[1])
+        i += 1
+
+
 def has_kind(model_vals, kinds):
     for v in model_vals:
         if isinstance(v, tuple):
@@ -208,6 +237,8 @@ class VmWorld(HistoryWorld):
     def gen_op(self, st, ctx):
         rng = ctx.rng
         r = rng.random()
+        if st.lib and has_bad(st.model) and r < 0.5:
+            return {'op': 'repair'}
         if not st.lib or r < 0.45:
             if len(st.lib) >= 8:
                 return {'op': 'pop'}
@@ -242,6 +273,11 @@ class VmWorld(HistoryWorld):
             st.model.pop()
         st.last = None
 
+    def op_repair(self, st, op, ctx):
+        strip_bad(st.lib, st.model)
+        st.last = None
+        ctx.probe('retry-after-failed-serialisation')
+
     def _klass(self, st):
         for kinds, name in ((('tuple',), 'tuple'), (('cont',), 'cont'), (('slice',), 'slice'), (('builder',), 'builder'), (('cell',), 'cell')):
             if has_kind(st.model, kinds):
@@ -255,9 +291,14 @@ class VmWorld(HistoryWorld):
         after = deep_snapshot(st.lib)
         klass = self._klass(st)
         if after != before or len(st.lib) != nbefore:
-            self.V(ctx, 'caller-values-modified', 'serialize', klass, 'VmStack.serialize changed the caller\'s values: %s -> %s' % (str(before)[:160], str(after)[:160]))
+            self.V(ctx, 'caller-values-modified', 'serialize', klass + ('' if ok else '/call-raised'), 'VmStack.serialize changed the caller\'s values: %s -> %s' % (str(before)[:160], str(after)[:160]))
             # re-synchronise the library-side values from the model
             st.lib = [build_from_model(m) for m in st.model]
+        if has_bad(st.model):
+            # an out-of-range integer somewhere inside: whatever happens, the caller's values stay as they were (checked above)
+            ctx.probe('serialise-with-unsupported-value' + ('-raised' if not ok else ''))
+            st.last = None
+            return
         if not ok:
             self.V(ctx, 'serialise-fails', 'serialize', klass, 'VmStack.serialize of a supported stack raised %r' % (c1,))
             return
